@@ -49,7 +49,7 @@ struct Enumerate<'a> {
 impl<'a> Visitor for Enumerate<'a> {
     fn visit<F: Flt, D: Subject<F>>(&mut self, d: Dims) {
         let l = D::layout(d);
-        let budget: usize = if self.mode == Mode::Quick { 3_000 } else { 300_000 };
+        let budget: usize = if self.mode == Mode::Quick { 3_000 } else { 60_000 };
         let c = cfg();
         let mut list: Vec<(Op, Vec<f64>)> = Vec::new();
         for (op, pts) in jobs() {
